@@ -18,6 +18,7 @@ import common
 import stubs
 import stft_trace as T
 import si_model
+import repo_tests
 
 
 def stft_configs(tier):
@@ -254,6 +255,7 @@ def run(tier, seed):
     real_size_values(run, tier, rng)
     real_size_count_traces(run, tier, rng)
     count_level(run, tier)
+    repo_tests.validate(run, "C01")
     # 4. short integration
     si_model.record_and_validate(run, tier, rng, prop="C01")
     run.extra["stft_traces"] = len(traces)
